@@ -256,6 +256,13 @@ func (c *SizedLRU) RemoveElement(elem *list.Element) {
 	c.gaugeCacheLogicalBytes.Set(float64(c.uncompressedSize))
 }
 
+// holds reports whether elem is still the index entry for key and still
+// has the given value.
+func (c *SizedLRU) holds(key string, elem *list.Element, value lruItem) bool {
+	ee, ok := c.cache[key]
+	return ok && ee == elem && ee.Value.(*entry).value == value
+}
+
 // Len returns the number of items in the cache
 func (c *SizedLRU) Len() int {
 	return len(c.cache)
